@@ -306,8 +306,74 @@ pub fn eval(out: &mut Out, op: &str, args: &[&str]) -> Option<String> {
             }
             "ok".into()
         }
+        // the syntax-tree printer on a source with NAMED arguments and results (the type-level printer has none, so
+        // `txt.prog` never shows them): print, parse again, same syntax tree
+        "txt.astargs" => {
+            let src = String::from_utf8(sexp::unhx(args.first()?)?).ok()?;
+            let line = args.join("\t");
+            let tree = |text: &str| -> Result<String, String> {
+                let ast = text.parse::<candid_parser::IDLProg>().map_err(|e| format!("parse: {e}"))?;
+                let actor = ast.actor.as_ref().map(|a| a.typ.clone());
+                let decs: Vec<candid_parser::syntax::Binding> = candid_parser::IDLProg::typ_decs(ast.decs).collect();
+                Ok(format!("{decs:?} {actor:?}"))
+            };
+            let s1 = src.clone();
+            let original = match guarded(move || tree(&s1)) {
+                Ok(Ok(t)) => t,
+                // the generator writes valid sources: a failure here is the generator's (counted, not compared)
+                _ => {
+                    out.stat("astargs:source-rejected");
+                    return Some("ok".into());
+                }
+            };
+            let s2 = src.clone();
+            let printed = guarded(move || -> Option<String> {
+                let ast = s2.parse::<candid_parser::IDLProg>().ok()?;
+                Some(candid_parser::syntax::pretty_print(&candid_parser::syntax::IDLMergedProg::new(ast)))
+            });
+            match printed {
+                Ok(Some(text)) => {
+                    let t2 = text.clone();
+                    match guarded(move || tree(&t2)) {
+                        Ok(Ok(back)) if back == original => {}
+                        Ok(Ok(_)) => out.oracle_failure("syntax-tree printer output parses to a different tree", &format!("{line}\t{}", hexs(&text))),
+                        Ok(Err(why)) => out.oracle_failure(
+                            &format!("syntax-tree printer output does not parse ({})", &why[..why.len().min(40)]),
+                            &format!("{line}\t{}", hexs(&text)),
+                        ),
+                        Err(_) => out.oracle_failure("parsing syntax-tree printer output panics", &line),
+                    }
+                    // and it type-checks to the same interface as the source
+                    let (a, b2) = (src.clone(), text.clone());
+                    let same = guarded(move || {
+                        let chk = |t: &str| -> Option<String> {
+                            let ast = t.parse::<candid_parser::IDLProg>().ok()?;
+                            let mut e = TypeEnv::new();
+                            let act = candid_parser::check_prog(&mut e, &ast).ok()?;
+                            Some(candid::pretty::candid::compile(&e, &act))
+                        };
+                        chk(&a) == chk(&b2)
+                    });
+                    if same != Ok(true) {
+                        out.oracle_failure("syntax-tree printer output checks to a different interface", &format!("{line}\t{}", hexs(&text)));
+                    }
+                }
+                _ => out.oracle_failure("syntax-tree printer fails or panics", &line),
+            }
+            "ok".into()
+        }
         _ => return None,
     })
+}
+
+/// a name as a quoted Candid text literal, every byte escaped (valid for any name, independent of the printers)
+fn quoted(name: &str) -> String {
+    let mut o = String::from("\"");
+    for b in name.as_bytes() {
+        o.push_str(&format!("\\{:02x}", b));
+    }
+    o.push('"');
+    o
 }
 
 pub fn hostile_text(ctx: &mut Ctx) -> String {
@@ -577,6 +643,35 @@ pub fn run_c12(ctx: &mut Ctx) {
             svc
         };
         ctx.emit(&format!("txt.prog\t{}\t{}", sexp::env(&env), sexp::ty(&actor)), true);
+    }
+    // 3. named arguments and results (function types, methods, service constructors) through the syntax-tree printer
+    let k = if ctx.thorough { 30_000 } else { 1_500 };
+    for _ in 0..k {
+        let mut nm = |ctx: &mut Ctx| -> String {
+            let n = hostile_name(ctx);
+            // bare when it is plainly an identifier and the generator feels like it; quoted otherwise (always valid)
+            let plain = !n.is_empty()
+                && n.chars().all(|c| c.is_ascii_alphanumeric() || c == '_')
+                && !n.chars().next().unwrap().is_ascii_digit()
+                && !["true", "false", "record", "service", "nat", "null", "opt", "blob", "query", "type", "import", "principal", "oneway", "composite_query", "vec", "variant", "func", "text", "reserved", "empty", "int", "bool", "nat8", "nat16", "nat32", "nat64", "int8", "int16", "int32", "int64", "float32", "float64"].contains(&n.as_str());
+            if plain && ctx.rng.chance(1, 2) { n } else { quoted(&n) }
+        };
+        let n: Vec<String> = (0..8).map(|_| nm(ctx)).collect();
+        let src = match ctx.rng.below(3) {
+            0 => format!(
+                "type F = func ({} : nat, {} : text) -> ({} : bool) query;\nservice : {{ get : ({} : nat) -> ({} : opt text) query; put : F; }}",
+                n[0], n[1], n[2], n[3], n[4]
+            ),
+            1 => format!(
+                "type F = func ({} : nat) -> ();\nservice : ({} : principal, {} : nat) -> {{ get : ({} : F) -> ({} : record {{ nat; nat }}); }}",
+                n[0], n[1], n[2], n[3], n[4]
+            ),
+            _ => format!(
+                "type R = record {{ cb : func ({} : text, {} : R) -> ({} : null) }};\nservice : {{ m : ({} : R, nat, {} : vec R) -> (R, {} : nat) composite_query; }}",
+                n[0], n[1], n[2], n[3], n[4], n[5]
+            ),
+        };
+        ctx.emit(&format!("txt.astargs\t{}", hexs(&src)), true);
     }
 }
 
